@@ -29,6 +29,13 @@ var c17Names = []string{"a", "b", "c", "title", "name", "n", "user", "Title", "h
 // embedded struct, its type name, a nil pointer field, a struct field, a field tagged json:"-", entries of a
 // non-struct root value). For them the model does not say what Lookup must return; only the agreement of
 // EnvMap with whatever Lookup returns is checked.
+// c17Wide: names used only by the "setmany" operation (a scope with more than eight bindings); part of the
+// universe that is compared after every operation, so a binding that outlives its scope is seen.
+var c17Wide = []string{"w0", "w1", "w2", "w3", "w4", "w5", "w6", "w7", "w8", "w9", "w10", "w11"}
+
+// c17Long: keys longer than 64 bytes that differ only in their last byte.
+var c17Long = strings.Repeat("k", 70)
+
 var c17Exotic = []string{"id", "ID", "Kind", "RichBase", "ptr", "sub", "-", "Skip", "1", "hold", "shh"}
 
 type mStack struct {
@@ -214,7 +221,8 @@ func c17Value(r *Rand, tag string) any {
 	case 1:
 		return fmt.Sprintf("s%d-%s", r.Intn(100), tag)
 	case 2:
-		return map[string]any{"b": fmt.Sprintf("nb%d", r.Intn(100)), "c": []any{1, "two", map[string]any{"d": "deep"}}, "b c": "with-blank", "bc": "without-blank"}
+		return map[string]any{"b": fmt.Sprintf("nb%d", r.Intn(100)), "c": []any{1, "two", map[string]any{"d": "deep"}}, "b c": "with-blank", "bc": "without-blank",
+			c17Long + "A": "long-A", c17Long + "B": map[string]any{"z": "long-B-z"}}
 	case 3:
 		return []any{fmt.Sprintf("e%d", r.Intn(10)), r.Intn(10), "x"}
 	case 4:
@@ -226,7 +234,7 @@ func c17Value(r *Rand, tag string) any {
 func genC17(seed uint64, run int, tier string) *RunSpec {
 	r := NewRand(seed, run)
 	spec := &RunSpec{Property: "C17", Family: "c17-stack", Seed: seed, Run: run}
-	st := &StackSpec{Names: c17Names}
+	st := &StackSpec{Names: append(append([]string{}, c17Names...), c17Wide...)}
 	ns := 1 + r.Intn(4)
 	for i := 0; i < ns; i++ {
 		d := DataSpec{Shape: Pick(r, []string{"map", "struct", "ptr", "nil", "structmap", "map", "struct", "rich", "richptr", "strmap", "intmap", "ptrptr"}), Tag: fmt.Sprintf("r%d", i), Items: 2, Variant: i}
@@ -267,12 +275,18 @@ func genC17(seed uint64, run int, tier string) *RunSpec {
 			op.Op = "set"
 			op.Name = name
 			op.Val = c17Value(r, fmt.Sprintf("s%d", s))
+			if r.Chance(8) {
+				op.Op = "setmany" // nine to twelve bindings in the innermost scope: a (pooled) scope map beyond eight entries
+				op.Name = ""
+				op.Val = 9 + r.Intn(4)
+			}
 		case k < 70:
 			op.Op = "lookup"
 			op.Name = name
 		case k < 78:
 			op.Op = "resolve"
-			op.Path = Pick(r, []string{"a.b", "a.c[0]", "a.c[2].d", "b[1]", "c.b", "a.c[9]", "a['b']", "user.name", "a.c[-1]", "a.c[18446744073709551616]", "a.c[18446744073709551618]", "zz.q", "a.b.c", "a['b c']", "a['bc']", "c['b c']", "c['bc']"})
+			op.Path = Pick(r, []string{"a.b", "a.c[0]", "a.c[2].d", "b[1]", "c.b", "a.c[9]", "a['b']", "user.name", "a.c[-1]", "a.c[18446744073709551616]", "a.c[18446744073709551618]", "zz.q",
+				"a." + c17Long + "A", "a." + c17Long + "B.z", "a['" + c17Long + "A']", "a." + c17Long + "C", "c." + c17Long + "B.z", "c." + c17Long + "A", "a.b.c", "a['b c']", "a['bc']", "c['b c']", "c['bc']"})
 			if r.Chance(30) {
 				op.Path = fmt.Sprintf("a.p%d", r.Intn(400)) // fresh paths (path cache misses)
 			} else if r.Chance(35) {
@@ -470,6 +484,18 @@ func execC17(spec *RunSpec) *Result {
 			case "set":
 				rs.Set(op.Name, op.Val)
 				ms.scopes[len(ms.scopes)-1][op.Name] = op.Val
+			case "setmany":
+				k := 9
+				if f, ok := op.Val.(float64); ok {
+					k = int(f)
+				} else if n, ok := op.Val.(int); ok {
+					k = n
+				}
+				for j := 0; j < k && j < len(c17Wide); j++ {
+					v := fmt.Sprintf("wide%d-%d", j, i)
+					rs.Set(c17Wide[j], v)
+					ms.scopes[len(ms.scopes)-1][c17Wide[j]] = v
+				}
 			case "lookup":
 				// compared in checkAll
 			case "resolve":
